@@ -489,7 +489,59 @@ Definition new_mach (root : hash) (cb : bool) (db : store) : mach :=
 Definition mrun (root : hash) (cb : bool) (db0 : store) (evs : list event) : mach :=
   fold_left mstep evs (new_mach root cb db0).
 
+(* ---- launching a trie sync: launchTrieSync, trieFetcher, trieSync.run/loop ------
+   A task is created (syncState / syncVldTrie / ...), handed to the single trie
+   fetcher over an unbuffered channel (launchTrieSync) - or, if the downloader
+   quits first, closed with errCancelTrieFetch - then run: loop() iterates while
+   Pending() > 0 and leaves with errCanceled / errCancelTrieFetch when it sees
+   the cancel channels, with the error of process, or with nil when its guard
+   finds nothing pending; the deferred commit(true) runs on every exit and
+   run() closes done.  Wait() returns the recorded error. *)
+Inductive lerr := LCancelFetch | LCanceled | LFailed (e : cerr).
+Inductive lstate :=
+| LQueued                                   (* blocked in launchTrieSync *)
+| LFailedLaunch                             (* done, errCancelTrieFetch, never ran *)
+| LRunning (m : mach)
+| LDone (e : option lerr) (m : mach).       (* done closed; e = None: err == nil *)
+Inductive levent :=
+| LHandover          (* the fetcher takes the task *)
+| LQuit              (* launchTrieSync sees quitCh *)
+| LLoop (e : event)  (* an event of the running loop / dispatcher *)
+| LCancelSeen        (* the loop's select sees d.cancelCh *)
+| LStopSeen          (* the loop's select sees s.cancel *)
+| LGuard.            (* the loop evaluates its guard / returns *)
+
+Definition lstep (root : hash) (cb : bool) (db : store) (st : lstate) (e : levent) : lstate :=
+  match st, e with
+  | LQueued, LHandover => LRunning (new_mach root cb db)
+  | LQueued, LQuit => LFailedLaunch
+  | LRunning m, LLoop ev => match ev with ECancel => st | _ => LRunning (mstep m ev) end
+  | LRunning m, LCancelSeen => if running m then LDone (Some LCanceled) (mstep m ECancel) else st
+  | LRunning m, LStopSeen => if running m then LDone (Some LCancelFetch) (mstep m ECancel) else st
+  | LRunning m, LGuard =>
+    if running m then st
+    else LDone (match m_err m with CNone => None | x => Some (LFailed x) end) (mstep m ECancel)
+  | _, _ => st
+  end.
+
+Definition lrun (root : hash) (cb : bool) (db : store) (evs : list levent) : lstate :=
+  fold_left (lstep root cb db) evs LQueued.
+
 End Caller.
+
+(* the launch machine without the contents of the loop: what the harness can
+   observe when it drives the real launchTrieSync / trieFetcher / loop *)
+Inductive astate := AQueued | ARunning | ADone (err : N).   (* 0 nil, 1 errCancelTrieFetch, 2 errCanceled, 3 other *)
+Inductive aev := AHandover | AQuit | ACancelSeen | AStopSeen | AGuardFalse (failed : bool).
+Definition astep (st : astate) (e : aev) : astate :=
+  match st, e with
+  | AQueued, AHandover => ARunning
+  | AQueued, AQuit => ADone 1
+  | ARunning, ACancelSeen => ADone 2
+  | ARunning, AStopSeen => ADone 1
+  | ARunning, AGuardFalse failed => ADone (if failed then 3 else 0)
+  | _, _ => st
+  end.
 
 (* ---- correspondence runner ---------------------------------------------- *)
 
@@ -519,7 +571,12 @@ Inductive oop :=
 | YTimeout (p : peer)
 | YNext (npeers : N) (ran : bool) (succ : N) (err : N)     (* ran = a finished request was processed *)
 | YCommit (force : bool)
-| YTasks (t : tasks) (num bytes : N).
+| YTasks (t : tasks) (num bytes : N)
+(* one launch history on the real launchTrieSync / trieFetcher / loop: what the
+   environment allowed (fetcher available, quitCh / cancelCh closed at some
+   point, Pending()==0 resp. trie complete at the end), the explanation of the
+   outcome as events of the launch machine, and the outcome *)
+| ZLaunch (fetcher quit cancel pending0 : bool) (wit : list aev) (done : bool) (err : N).
 
 Record case := mkCase {
   c_hash : list (blob * hash);         (* Keccak of every blob of the case *)
@@ -615,6 +672,20 @@ Definition ostep (H : blob -> hash) (dec : blob -> option nodeview) (blen : blob
     Some (mkMach (ccommit ideal (m_c m) force) (m_active m) (m_finished m) (m_err m))
   | YTasks t num bytes =>
     if tasks_ok (c_tasks (m_c m)) t && N.eqb num (c_num (m_c m)) && N.eqb bytes (c_bytes (m_c m))
+    then Some m else None
+  | ZLaunch fetcher quit cancel pending0 wit done err =>
+    let legal := fun a => match a with
+                          | AHandover => fetcher
+                          | AQuit => quit
+                          | ACancelSeen => cancel
+                          | AStopSeen => false
+                          | AGuardFalse failed => failed || pending0
+                          end in
+    if forallb legal wit &&
+       match fold_left astep wit AQueued with
+       | ADone e => done && N.eqb e err
+       | _ => negb done
+       end
     then Some m else None
   end.
 
